@@ -98,8 +98,10 @@ def lookback_functionals(ctx, run):
         problems = []
 
         def forwards_all(e, names):
-            k2 = dict(e["kwargs"])
+            k2 = dict(e.get("bound") or e["kwargs"])
             return all(k2.get(n) == kw[n] for n in names)
+
+        everywhere = [e for e in res[0]["events"] if e["kind"] == "call"]  # calls at any depth (a dispatch helper may sit in between)
 
         names = [n for n in kw]
         if greek in ("delta", "gamma"):
@@ -114,17 +116,14 @@ def lookback_functionals(ctx, run):
                     problems.append("does not forward all of its own arguments to the pricer")
         else:
             rel = f"_bs_{greek}_gamma_relation"
-            g = [e for e in own if e["callee"] == B.F + "bs_lookback_gamma"]
-            rc = [e for e in own if e["callee"] == B.F + rel]
+            g = [e for e in everywhere if e["callee"] == B.F + "bs_lookback_gamma"]
+            rc = [e for e in everywhere if e["callee"] == B.F + rel]
             if len(g) != 1 or len(rc) != 1:
                 problems.append(f"calls {[e['callee'].rsplit('.', 1)[-1] for e in own]}, expected bs_lookback_gamma and {rel}")
             else:
                 if not forwards_all(g[0], names):
                     problems.append("gamma is not evaluated at the function's own arguments")
-                rkw = dict(rc[0]["kwargs"])
-                rfi = prog.functions[B.F + rel]
-                for n_, v_ in zip([a.arg for a in rfi.node.args.args], rc[0]["args"]):
-                    rkw[n_] = v_
+                rkw = dict(rc[0].get("bound") or rc[0]["kwargs"])
                 want_spot = Op("mul", (Op("exp", (kw["log_moneyness"],)), kw["strike"]))
                 if not same(rkw.get("spot"), want_spot):
                     problems.append(f"spot handed to {rel} is {str(rkw.get('spot'))[:60]}")
